@@ -1248,6 +1248,8 @@ class Engine:
                 return x
             if isinstance(x, float):
                 return int(x)
+            if isinstance(x, SOpq) and self.abstract:
+                return self.opaque_call("%s:%s" % (cls.module.name, cls.name), None, args, kwargs, node)
             raise EngineError("construction of %s from %r" % (cls.name, x))
         ct = self.registry.contract_for("%s:%s" % (cls.module.name, cls.name))
         if ct is not None:
